@@ -255,3 +255,21 @@ def _check_driver(ck, inst, ssite, p, owner, init, ow, nch):
         elif ct.is_const() or (ups and num_term(argp(ups[0][5], 5)) is not None and not (num_term(argp(ups[0][5], 5)).syms() & ct.syms())):
             okc = False  # the reported count does not grow with the draws at all
     ck.check(okc, "C13.R1", inst + ":reported count = chains x draws", ssite, "the reported num_samples %r is not the chain count accumulated once per draw" % (ct,))
+    # standard error = sqrt(reported variance / reported count) - the count actually drawn, not the count asked for
+    dicts = []
+    if isinstance(res, VDict) and res.obj.items is not None:
+        dicts = [res] if owner == "ObservableBase" else [v for v in res.obj.items.values() if isinstance(v, VDict)]
+    for dct in dicts[:2]:
+        se, va, cn = (num_term(dct.obj.items.get(k)) if dct.obj.items.get(k) is not None else None for k in ("std_error", "variance", "num_samples"))
+        if se is None or va is None or cn is None:
+            ck.undecided("C13.R1", inst + ":std_error = sqrt(variance / count)", ssite, "standard error, variance or count is not a number the analyser follows")
+            continue
+        want_se = T.sqrt(va * T.inv(cn))
+        if se == want_se:
+            ck.ok("C13.R1", inst + ":std_error = sqrt(variance / count)", ssite)
+        elif se == T.sqrt(va * T.inv(ns)) and cn != ns:
+            ck.violation("C13.R1", inst + ":std_error = sqrt(variance / count)", ssite,
+                         "the standard error divides the variance by the number of samples asked for (num_samples), not by the number drawn (%r): they differ whenever num_samples is not a multiple of the chain count" % (cn,))
+        else:
+            d = lin_diff(se * se, va * T.inv(cn))
+            ck.check(diff_verdict(d), "C13.R1", inst + ":std_error = sqrt(variance / count)", ssite, "std_error^2 vs variance / count: " + diff_msg(d))
